@@ -6,8 +6,7 @@ Require Import ExtrOcamlBasic.
 From Coq Require Import NArith ZArith.
 From WMD Require Import Lib.Str Lib.PyChars Model.ContentType Model.Server Model.Etag Model.Decode Model.Pool Model.Dmp Model.Links.
 From WMD Require Import Lib.Difflib Model.RenderTokens Model.RenderMerge Model.LinksHtml Model.RenderDoc.
-(* the stack reading of the single-sided views (defined next to its theorems) *)
-From WMD Require Import Proofs.NestingProofs.
+From WMD Require Import Model.RenderLabelled.
 (* unique names for functions whose short names clash across modules *)
 Definition x_links_assemble_diff := Links.assemble_diff.
 Definition x_links_count_changes := Links.count_changes.
@@ -28,5 +27,5 @@ Extraction "extracted.ml"
   RenderDoc.diffable_fragment RenderDoc.render_view RenderDoc.selected RenderDoc.kind_name RenderDoc.title_markup
   LinksHtml.links_html LinksHtml.lex LinksHtml.clean LinksHtml.sem_events LinksHtml.events LinksHtml.links_document
   RenderMerge.merge_change_groups RenderMerge.reconcile_change_groups RenderMerge.assemble_diff RenderMerge.render_string
-  NestingProofs.nesting_report
+  RenderLabelled.nesting_report
   Coq.Init.Nat.add BinInt.Z.add BinNat.N.to_nat.
